@@ -72,7 +72,8 @@ word = st.one_of(st.sampled_from([0, 1, 0xFF, 0x100, 0x0E00, 0x7FFF, 0x8000, 0xF
 def cas_file(lengths=CAS_LENGTHS, big_weight=1, min_len=0):
     return st.fixed_dictionaries(dict(
         name=cas_name, ftype=st.sampled_from([0, 1, 2, 2, 3]), dtype=st.sampled_from([0x00, 0xFF]),
-        load=word, exec=word, data=data_desc(lengths, big_weight=big_weight, min_len=min_len)))
+        load=word, exec=word, gaps=st.sampled_from([None, None, 0x00, 0xFF]),
+        data=data_desc(lengths, big_weight=big_weight, min_len=min_len)))
 
 
 def to_coco(desc, data=None):
@@ -81,10 +82,13 @@ def to_coco(desc, data=None):
     from cocoasm.values import NumericValue
     if data is None:
         data = expand(desc["data"])
+    kw = {}
+    if desc.get("gaps") is not None:      # the gap flag a file carries when it was read from a (foreign) tape
+        kw["gaps"] = NumericValue(desc["gaps"])
     return CoCoFile(
         name=desc["name"], extension=desc.get("ext", ""), type=NumericValue(desc["ftype"]),
         data_type=NumericValue(desc["dtype"]), load_addr=NumericValue(desc["load"]),
-        exec_addr=NumericValue(desc["exec"]), data=list(data))
+        exec_addr=NumericValue(desc["exec"]), data=list(data), **kw)
 
 
 def norm_name(name, width=8):
@@ -112,13 +116,13 @@ def short_file(desc):
 # ------------------------------------------------------------------ disk files
 
 def dsk_file(lengths=DSK_LENGTHS, max_uniform=6000, big_weight=1, big=40000):
-    kind = st.sampled_from(["ml", "ml", "basic", "ascii", "ascii_data"])
+    kind = st.sampled_from(["ml", "ml", "basic", "ascii", "ascii_data", "ml_ascii"])
     return st.builds(
         lambda name, ext, kind, load, exe, data: dict(
             name=name, ext=ext, kind=kind,
-            ftype={"ml": 2, "basic": 0, "ascii": 0, "ascii_data": 1}[kind],
-            dtype=0xFF if kind.startswith("ascii") else 0x00,
-            load=load if kind == "ml" else 0, exec=exe if kind == "ml" else 0, data=data),
+            ftype={"ml": 2, "basic": 0, "ascii": 0, "ascii_data": 1, "ml_ascii": 2}[kind],
+            dtype=0xFF if "ascii" in kind else 0x00,
+            load=load if kind.startswith("ml") else 0, exec=exe if kind.startswith("ml") else 0, data=data),
         dsk_name, dsk_ext, kind, word, word, data_desc(lengths, max_uniform=max_uniform, big=big, big_weight=big_weight))
 
 
